@@ -5,8 +5,9 @@
        5ce39e3, f7c62f4; known.d status "fixed: ..."); with the flag on the model follows the repaired source, the main
        theorems need no hypothesis about these flags any more, and a revert of a fix makes the model reproduce the defect
        (reported as a violation: a fixed finding observed again);
-     q_lintfile_leaves_evidence (bare Orchestrator.lint_file), q_ignore_parser_reused (get_ignore_parser singleton): still
-       present, listed as known in known.d/C08.json. *)
+     q_lintfile_leaves_evidence (bare Orchestrator.lint_file), q_ignore_parser_reused (get_ignore_parser singleton),
+     q_dry_config_sticky (DRYRule._config), q_fp_config_sticky (FilePlacementRule._linter_cache): still present, listed as
+       known in known.d/C08.json. *)
 From TL Require Import Lib.Base Model.OrchHist.
 
 Definition orch_actual : oquirks := {|
@@ -14,4 +15,6 @@ Definition orch_actual : oquirks := {|
   q_lintfile_leaves_evidence := true;
   q_consts_in_processing_order := true;
   q_ignore_parser_reused := true;
-  q_api_file_no_finalize := true |}.
+  q_api_file_no_finalize := true;
+  q_dry_config_sticky := true;
+  q_fp_config_sticky := true |}.
